@@ -228,6 +228,10 @@ class VMTunnel(object):
             netconfig1.netmask = local1["lmask"]
             params["vpnconn_lan_net_%s_%s" % (name, node1.name)] = local1["lnet"]
             params["vpnconn_lan_netmask_%s_%s" % (name, node1.name)] = local1["lmask"]
+            params["vpnconn_remote_net_%s_%s" % (name, node2.name)] = local1["lnet"]
+            params["vpnconn_remote_netmask_%s_%s" % (name, node2.name)] = local1[
+                "lmask"
+            ]
         else:
             raise ValueError(
                 "Invalid choice of left local type '%s', must be one of"
